@@ -329,7 +329,29 @@ def r2_lists_after_prune(ctx, rep):
             continue
         lst = m.group(1)
         arg = c.args[0]
-        ok = isinstance(arg, ast.Name) and (arg.id in top or arg.id == "new_file")
+
+        def top_level(e: ast.AST, depth: int = 0) -> bool:
+            """the value consists of the new file itself or of units taken directly from one of its lists (`new_file.<list>`),
+            however they are put together (loop variable, extend, [*a, *b], a + b, chain(a, b), a local holding any of these)"""
+            if depth > 5:
+                return False
+            if isinstance(e, ast.Name):
+                if e.id in top or e.id == "new_file":
+                    return True
+                alts = [v for _st, v in astq.assignments(ff, e.id) if v is not None]
+                return bool(alts) and all(top_level(a, depth + 1) for a in alts)
+            if isinstance(e, ast.Attribute):
+                return isinstance(e.value, ast.Name) and e.value.id == "new_file"
+            if isinstance(e, ast.Starred):
+                return top_level(e.value, depth + 1)
+            if isinstance(e, (ast.List, ast.Tuple)):
+                return bool(e.elts) and all(top_level(x, depth + 1) for x in e.elts)
+            if isinstance(e, ast.BinOp) and isinstance(e.op, ast.Add):
+                return top_level(e.left, depth + 1) and top_level(e.right, depth + 1)
+            if isinstance(e, ast.Call) and call_name(e).split(".")[-1] in ("list", "chain", "sorted", "tuple") and e.args:
+                return all(top_level(a, depth + 1) for a in e.args)
+            return False
+        ok = top_level(arg)
         rep.ob(f"Project._fortran_file registers into {lst}: {ast.unparse(arg)[:40]}", ok,
                ("a top-level unit of the file (always documented)" if ok else
                 f"self.{lst} is filled at parse time from nested entities ({ast.unparse(arg)[:60]}), i.e. before "
@@ -339,12 +361,27 @@ def r2_lists_after_prune(ctx, rep):
 
 def r3_links_to_visible(ctx, rep):
     j = ctx.j
+    _lines: Dict[str, List[str]] = {}
+
+    def tpl_lines(name: str) -> List[str]:
+        if name not in _lines:
+            _lines[name] = (ctx.py.root / "ford" / "templates" / name).read_text(encoding="utf-8").splitlines()
+        return _lines[name]
     seen = set()
     for tpl in c09.all_page_templates(ctx):
         outs, _ = j.expand(tpl)
         for o in outs:
-            if o.ctx != ("attr", "href") or ".get_url()" not in o.sym or "<in-test>" in o.macros:
+            if ".get_url()" not in o.sym or "<in-test>" in o.macros:
                 continue
+            if o.ctx != ("attr", "href"):
+                # HTML kept inside another attribute (`data-bs-content="<a href=...>"`, the common-block popover) is not seen as
+                # markup by the template model: recognise the href by the literal text in front of the output
+                try:
+                    src_line = tpl_lines(o.template)[o.lineno - 1]
+                except Exception:
+                    continue
+                if not re.search(r"href=[\"'][^\"'>]*\{\{\s*" + re.escape(o.src.split("|")[0].strip()), src_line):
+                    continue
             key = (o.template, o.lineno)
             if key in seen:
                 continue
@@ -361,7 +398,8 @@ def r3_links_to_visible(ctx, rep):
             if re.fullmatch(r"project\.\w+\[\d+\]", target):
                 rep.ob(construct, True, "top-level unit (always documented)", o.loc, nontrivial=False)
                 continue
-            ok = f"{target}.visible" in rawconds
+            # an item documented on its parent's page (common block, variable): the page is the parent's
+            ok = f"{target}.visible" in rawconds or f"{target}.parent.visible" in rawconds
             rep.ob(construct, ok,
                    (f"link guarded by {target}.visible" if ok else
                     f"href to {target}.get_url() is not guarded by {target}.visible: may point at the page of an "
@@ -506,6 +544,71 @@ def r6_display_inheritance(ctx, rep):
            "inheriting the parent's: an entity-level `display:` override is lost from its grandchildren on", py.nloc(fps))
 
 
+def r7_python_link_producers(ctx, rep):
+    """who-may-link on the Python side: an `<a href=...>` built in Python from an entity's URL (`full_url`, `get_url()`) is
+    returned only on paths on which the entity's `visible` flag was tested.  The one producer that needs no test of its own
+    is the "Read more" link an entity appends to *its own* summary (the summary is only rendered where the template has
+    tested `visible`, C03)."""
+    py = ctx.py
+    n = 0
+
+    def atom(t):
+        if any((isinstance(x, ast.Attribute) and x.attr == "visible") or
+               (isinstance(x, ast.Call) and call_name(x) == "getattr" and len(x.args) >= 2 and isinstance(x.args[1], ast.Constant)
+                and x.args[1].value == "visible") for x in ast.walk(t)) and not isinstance(t, (ast.BoolOp, ast.UnaryOp)):
+            return ("visible", True)
+        return None
+
+    def entity_url(e, fn) -> bool:
+        for x in [e] + astq.expand_locals(e, fn):
+            for a in ast.walk(x):
+                if isinstance(a, ast.Attribute) and a.attr == "full_url":
+                    return True
+                if isinstance(a, ast.Call) and isinstance(a.func, ast.Attribute) and a.func.attr == "get_url":
+                    return True
+        return False
+    for mod, fn in py.all_ifunctions():
+        if mod in ("graphs", "pagetree"):
+            continue        # graph node URLs: C05.R5; page-tree links are not entity links
+        lits = [j for j in ast.walk(fn) if isinstance(j, ast.JoinedStr) and py.enclosing_function(j) is fn and any(
+            isinstance(v, ast.Constant) and isinstance(v.value, str) and "<a href" in v.value.lower() for v in j.values)]
+        if not lits:
+            continue
+        ev = astq.trace(fn)
+        for j in lits:
+            vals = [v.value for v in j.values if isinstance(v, ast.FormattedValue)]
+            if not any(entity_url(v, fn) for v in vals):
+                continue
+            n += 1
+            host = [e for e in ev if any(x is j for x in ast.walk(e.node))]
+            own_summary = any(e.kind == "assign" and e.target and e.target.endswith(".summary") for e in host)
+            ok = own_summary or (bool(host) and all(astq.path_implies(e, atom, {"visible": True}) is True for e in host))
+            rep.ob(f"{py.qualname(fn)}: link built from an entity URL", ok,
+                   ("the entity's own summary" if own_summary else "built only after `visible` was tested") if ok else
+                   f"`{ast.unparse(j)[:60]}` is produced without a test of the entity's `visible` flag: entities removed by "
+                   f"display / hide_undoc / proc_internals get links to pages that are never written", py.nloc(j))
+    # the same for link *elements*: `<element>.attrib["href"] = <entity URL>` (the [[...]] processor)
+    for mod, fn in py.all_ifunctions():
+        stores = [st for st in ast.walk(fn) if isinstance(st, ast.Assign) and py.enclosing_function(st) is fn and any(
+            isinstance(t, ast.Subscript) and isinstance(t.slice, ast.Constant) and t.slice.value == "href" for t in st.targets)]
+        if not stores:
+            continue
+        ev = astq.trace(fn)
+        for st in stores:
+            if not entity_url(st.value, fn):
+                continue
+            n += 1
+            host = [e for e in ev if e.node is st or any(x is st for x in ast.walk(e.node))]
+            ok = bool(host) and all(astq.path_implies(e, atom, {"visible": True}) is True for e in host)
+            rep.ob(f"{py.qualname(fn)}: href set from an entity URL", ok,
+                   "set only after `visible` was tested" if ok else
+                   f"`{ast.unparse(st)[:60]}` is reached without a test of the target's `visible` flag: a [[reference]] that resolves "
+                   f"to an entity removed by display (found through a binding or a child table rather than the pruned project lists) "
+                   f"becomes a link to a page that is never written", py.nloc(st))
+    if n < 2:
+        raise AnalysisError(f"only {n} Python link producer(s) found")
+
+
 RULES = [
     RuleSpec("C05.R5", r5_graph_links_and_constructor, "graph links are visibility-gated; constructors follow their type", floor=1),
     RuleSpec("C05.R1", r1_prune_coverage, "prune covers every rendered child collection", floor=20),
@@ -513,4 +616,5 @@ RULES = [
     RuleSpec("C05.R3", r3_links_to_visible, "hrefs to other entities are visibility-guarded", floor=3),
     RuleSpec("C05.R4", r4_display_logic, "display/hide_undoc/proc_internals logic", floor=4),
     RuleSpec("C05.R6", r6_display_inheritance, "display selection is inherited through the parent, not re-installed", floor=2),
+    RuleSpec("C05.R7", r7_python_link_producers, "links built in Python are produced only for visible entities", floor=2),
 ]
